@@ -169,6 +169,108 @@ where
     }
 }
 
+/// `--part fork`: after a warm-up in the parent, the process forks; parent and child then perform the
+/// same kind of operation. Nothing random may be common to both (randomness buffered before the fork
+/// must not be served on both sides).
+#[cfg(not(miri))]
+fn fork_backend<B: Backend>(opts: &Opts, rep: &mut Report) {
+    let slot = (B::VER as usize + if B::FAMILY == Family::Ffi { 5 } else { 0 }) % opts.nshards;
+    if opts.shard != slot && opts.only.is_none() {
+        return;
+    }
+    let mut rng = Rng::derive(opts.seed, &format!("c16.fork.{}", B::NAME), 0);
+    let kl = KeyPair::<B>::Local(local_key::<B>(&rng.arr()));
+    let kp = KeyPair::<B>::gen_for(Purp::Public, &mut rng);
+    let s = Secrets::gen_for::<B>(&mut rng);
+    let wrapped_local = rng.bytes(32);
+    let wrapped_secret = key_bytes(&secret_key::<B>(&B::gen_secret(&mut rng)));
+    for round in 0..opts.size(3, 12) {
+        for op in 0..9usize {
+            // warm-up: 1..4 operations in the parent, so that any buffer is part-way through
+            for _ in 0..(1 + (round + op) % 4) {
+                let _ = guard(|| one_op::<B>(op, &kl, &kp, &s, &wrapped_local, &wrapped_secret));
+            }
+            let mut fds = [0i32; 2];
+            if unsafe { libc::pipe(fds.as_mut_ptr()) } != 0 {
+                rep.inconclusive("pipe() failed");
+                return;
+            }
+            let run = || {
+                let mut lines: Vec<String> = vec![];
+                for _ in 0..6 {
+                    if let Ok(Ok(fields)) = guard(|| one_op::<B>(op, &kl, &kp, &s, &wrapped_local, &wrapped_secret)) {
+                        for (c, v) in fields {
+                            lines.push(format!("{c} {}", hx(&v)));
+                        }
+                    }
+                }
+                lines
+            };
+            let pid = unsafe { libc::fork() };
+            if pid == 0 {
+                // child: same operations, results to the pipe, then leave without running any exit handlers
+                unsafe {
+                    libc::alarm(120);
+                    libc::close(fds[0]);
+                }
+                let text = run().join("\n");
+                unsafe {
+                    let b = text.as_bytes();
+                    let mut off = 0;
+                    while off < b.len() {
+                        let n = libc::write(fds[1], b[off..].as_ptr() as *const libc::c_void, b.len() - off);
+                        if n <= 0 {
+                            break;
+                        }
+                        off += n as usize;
+                    }
+                    libc::close(fds[1]);
+                    libc::_exit(0);
+                }
+            }
+            unsafe { libc::close(fds[1]) };
+            if pid < 0 {
+                unsafe { libc::close(fds[0]) };
+                rep.inconclusive("fork() failed");
+                return;
+            }
+            let mine = run();
+            let mut theirs = Vec::new();
+            let mut buf = [0u8; 4096];
+            loop {
+                let n = unsafe { libc::read(fds[0], buf.as_mut_ptr() as *mut libc::c_void, buf.len()) };
+                if n <= 0 {
+                    break;
+                }
+                theirs.extend_from_slice(&buf[..n as usize]);
+            }
+            let mut status = 0i32;
+            unsafe {
+                libc::close(fds[0]);
+                libc::waitpid(pid, &mut status, 0);
+            }
+            let theirs: Vec<String> = String::from_utf8_lossy(&theirs).lines().map(|l| l.to_string()).collect();
+            heartbeat(B::NAME);
+            if mine.is_empty() {
+                continue; // operation kind not applicable to this backend
+            }
+            let class = mine[0].split(' ').next().unwrap_or("").to_string();
+            rep.case(&format!("{class}.across-fork"), fnv_parts(&[class.as_bytes(), &[round as u8, op as u8]]), true);
+            if theirs.is_empty() {
+                rep.inconclusive(&format!("{class}: the forked child produced nothing (status {status})"));
+                continue;
+            }
+            let common: Vec<&String> = mine.iter().filter(|l| theirs.contains(l)).collect();
+            if !common.is_empty() {
+                rep.violation(&format!("C16|{class}|random-field-shared-by-parent-and-child-after-fork"), json!({"class": class, "shared": common.iter().take(3).map(|l| l.chars().take(120).collect::<String>()).collect::<Vec<_>>(), "parent_outputs": mine.len(), "child_outputs": theirs.len(), "warm_up_operations_before_fork": 1 + (round + op) % 4}));
+            }
+            rep.sample_class("across-fork", 6, || json!({"class": class, "parent_outputs": mine.len(), "child_outputs": theirs.len(), "common": 0}));
+        }
+    }
+}
+#[cfg(miri)]
+fn fork_backend<B: Backend>(_: &Opts, _: &mut Report) {}
+
 fn fresh_backend<B: Backend>(opts: &Opts, fr: &mut Fresh) {
     let stream = format!("c16.{}", B::NAME);
     let mut rng = Rng::derive(opts.seed, &stream, 0);
@@ -627,6 +729,10 @@ pub fn run(opts: &Opts) {
             "rule",
             json!("Part A0 (thread-first): rounds of 8 freshly spawned threads whose first library operation is one operation of a given kind (9 kinds), fields compared within the round and logged with the rest; Part A: per backend and operation kind N consecutive operations with identical key and message (quick 5000, thorough 100000; RSA fewer); the random field of every output (token nonce, ECDSA r, whole PSS signature, PIE nonce, PBKW salt and nonce, PKE ephemeral key / RSA-KEM ciphertext, generated key bytes) is logged; online: not constant / not a fixed pattern, consecutive outputs differ; offline checker over the logs of all shards: no value repeats; distinct = distinct random values. Ed25519 and RFC 6979 signatures carry no randomness and are excluded"),
         );
+    }
+    if opts.part.as_deref() == Some("fork") {
+        for_backends!(opts, fork_backend, opts, &mut rep);
+        rep.set("rule_fork", json!("per backend and operation kind: 1-4 warm-up operations, fork(), then six operations on each side; no nonce / salt / ephemeral key / generated key may occur on both sides"));
     }
     if opts.part.as_deref() == Some("failfirst") {
         for_backends!(opts, fault_backend, opts, &mut rep);
